@@ -547,6 +547,9 @@ impl Case {
             self.tick_since_quiescent = true;
         }
         self.mon.callbacks(&cbv, &before, now, line);
+        if line.starts_with("pr") && self.proc_prev_at == "proc:tick:key" && at == "proc:tick:after_policy" {
+            self.mon.sweep_decision(&before, &after, now);
+        }
         if line.starts_with("pr") {
             if self.proc_prev_at == "proc:clear:after_store" && at == "proc:loop" {
                 self.mon.clear_performed(&after);
@@ -708,6 +711,11 @@ impl Case {
         };
         let seen = self.sched.grant(a as Actor);
         self.after_client_segment(t, a, &format!("cl {}", a), Some(from), seen);
+    }
+
+    /// the yield point the processor reached by its last step
+    pub fn proc_at(&self) -> &'static str {
+        self.proc_prev_at
     }
 
     pub fn proc_enabled(&self) -> bool {
@@ -1096,6 +1104,50 @@ pub fn suite_defaults(t: &mut Trace) -> String {
         check!("C12", !block_on(c.insert(3, 3, 1)), "async: a closed default cache accepted an insert");
         t.step("defaults async");
         t.mark_nontrivial();
+    }
+    // ---- C12: every handle dropped without close(): both workers of both flavours must exit
+    {
+        let sched = Sched::new();
+        stretto::verif::install(Some(sched.clone()));
+        sched.reset();
+        sched.set_controlled(false);
+        for is_async in [false, true] {
+            id += 1;
+            t.case(id, "defaults");
+            let _ = sched.take_notes();
+            if is_async {
+                let c: AsyncCache<u64, u64> = AsyncCache::new(100, 5000, spawner).expect("AsyncCache::new");
+                let c2 = c.clone();
+                let _ = block_on(c.insert(1, 11, 5));
+                let _ = block_on(c2.wait());
+                let _ = block_on(c2.get(&1)).map(|v| v.release());
+                drop(c);
+                drop(c2);
+            } else {
+                let c: Cache<u64, u64> = Cache::new(100, 5000).expect("Cache::new");
+                let c2 = c.clone();
+                let _ = c.insert(1, 11, 5);
+                let _ = c2.wait();
+                let _ = c2.get(&1).map(|v| v.release());
+                drop(c);
+                drop(c2);
+            }
+            let (mut pe, mut we) = (false, false);
+            let t0 = Instant::now();
+            while !(pe && we) && t0.elapsed() < Duration::from_secs(5) {
+                std::thread::sleep(Duration::from_millis(10));
+                for (_, n, _) in sched.take_notes() {
+                    pe |= n == "proc:exit";
+                    we |= n == "pol:exit";
+                }
+            }
+            let fl = if is_async { "async" } else { "sync" };
+            check!("C12", pe, "{}: the cache processor did not exit within 5 s after every handle was dropped without close()", fl);
+            check!("C12", we, "{}: the policy worker did not exit within 5 s after every handle was dropped without close()", fl);
+            t.step(&format!("defaults drop {}", fl));
+            t.mark_nontrivial();
+        }
+        stretto::verif::install(None);
     }
     for (prop, msg) in &fails {
         println!("MONITOR property={} case=0 msg={}", prop, msg.replace(' ', "_"));
